@@ -192,6 +192,38 @@ int main(int argc, char** argv) {
           objs[3] = build(s, hist, 3); objs[4] = build(s, hist, 4);
         } catch (std::exception& e) { cur_mode = -1; mismatch("build", 0, 0, std::string("threw:") + e.what(), 1, 0); last_sid = -1; continue; }
         last_sid = sid; last_hist = hist;
+        // OFF the lattice, once per object and history: a generic elapsed time and generic positions (non-dyadic interpolation
+        // weights).  No exact value exists for these; the clauses of the property are checked as relations between entry points
+        // and the vector algebra: the interpolated state is the convex combination of the bracketing nodes' stored states, the
+        // D-forms are Tr(interpolated state x operator evolved with H0 AT x over t - t_ini), and at a node they agree with the
+        // node-indexed form.
+        if (objs[0]) {
+          std::unique_ptr<Obs> g = build(s, hist, 0);
+          g->Evolve(0.7345 + 0.0613 * (sid % 7));
+          double dtg = g->Get_t() - g->Get_t_initial();
+          std::vector<double> xs = g->Get_xrange();
+          cur_mode = 9; cur_q = qid;
+          for (int ir = 0; ir < 2; ir++) for (size_t iv = 0; iv + 1 < xs.size(); iv++) for (double fr : {0.0, 0.137, 0.5, 0.861}) {
+            double xg = xs[iv] + fr * (xs[iv + 1] - xs[iv]);
+            double f2 = (xg - xs[iv]) / (xs[iv + 1] - xs[iv]), f1 = 1 - f2;
+            SU_vector want = f1 * vec_from_matrix(s.rho[iv][ir]) + f2 * vec_from_matrix(s.rho[iv + 1][ir]);
+            SU_vector st = g->GetIntermediateState(ir, xg);
+            double tolst = 64 * EPS * std::max(1.0, s.rhonorm);
+            for (int k = 0; k < d * d; k++) if (!(std::fabs(st[k] - want[k]) <= tolst)) { mismatch("GetIntermediateState(generic x)", ir, k, "value", std::fabs(st[k] - want[k]), tolst); break; }
+            SQuIDS::expectationValueDBuffer bufg(d);
+            std::vector<bool> avg(d * (d - 1) / 2 + 1, false);
+            for (size_t k = 0; k < s.ops.size(); k += 3) {
+              SU_vector opv = vec_from_matrix(s.ops[k]);
+              double ref = want * opv.Evolve(g->H0(xg, ir), dtg);
+              double S = std::max(1.0, s.rhonorm * mnorm1(s.ops[k])) * (1 + std::fabs(dtg) * 40 * std::fabs(xg));
+              double tolv = 512 * EPS * S;
+              double got[4] = {g->GetExpectationValueD(opv, ir, xg), g->GetExpectationValueD(opv, ir, xg, bufg), g->GetExpectationValueD(opv, ir, xg, 1e300, avg), g->GetExpectationValueD(opv, ir, xg, bufg, 1e300, avg)};
+              static const char* nm[4] = {"GetExpectationValueD(generic)", "GetExpectationValueD(buf,generic)", "GetExpectationValueD(avg,generic)", "GetExpectationValueD(buf,avg,generic)"};
+              for (int q2 = 0; q2 < 4; q2++) { ncmp++; if (!(std::fabs(got[q2] - ref) <= tolv)) { mismatch(nm[q2], ir, (int)k, "value", std::fabs(got[q2] - ref), tolv); break; } }
+              if (fr == 0.0) { ncmp++; double nv = g->GetExpectationValue(opv, ir, (unsigned)iv); if (!(std::fabs(nv - ref) <= tolv)) mismatch("GetExpectationValue(generic t)", ir, (int)k, "value", std::fabs(nv - ref), tolv); }
+            }
+          }
+        }
       }
       for (int mode = 0; mode < 5; mode++) {
         if (!objs[mode]) continue;
